@@ -178,7 +178,8 @@ def reload_cases(kind):
     @st.composite
     def cases(draw):
         n_ops = draw(st.sampled_from([1, 2, 3, 3, 4, 4, 5, 6]))
-        ops = [draw(st.one_of(_save_ops(kind), _save_ops(kind), _acc_ops())) for _ in range(n_ops - 1)]
+        # between the saves of the judged object: more data, or ANOTHER object (other statistics) writing to the same path
+        ops = [draw(st.one_of(_save_ops(kind), _save_ops(kind), _acc_ops(), st.just({"op": "other"}))) for _ in range(n_ops - 1)]
         ops.append(draw(_save_ops(kind)))
         return {
             "kind": kind,
@@ -221,6 +222,7 @@ def check_reload(case):
             np.savez(path, **before)
             labels.append("pre-existing-archive")
         dirs = {}
+        last_kw = {}
         for op in case["ops"]:
             if op["op"] == "acc":
                 extra = make_dataset(spec, n=max(2, int(op["n"])), seed=op["seed"])[: int(op["n"])]
@@ -232,7 +234,19 @@ def check_reload(case):
                 if n_saves:
                     acc_between = True
                 continue
+            if op["op"] == "other":
+                # a second writer: another Standardize object with different statistics saves to the same path, with the
+                # arguments of the judged object's last save; the judged object's next save must put its own statistics back
+                b = Standardize(norm_var=nv)
+                b.accumulate(data.astype(np.float64) * 3.0 + 100.0, axis=-1)
+                call("save by another object to the same path", b.save, path, **last_kw)
+                if kind == "npz":
+                    before = read_archive(path)
+                if n_saves:
+                    labels.append("other-writer-between-saves")
+                continue
             kw = save_kwargs(op) if kind == "npz" else {}
+            last_kw = dict(kw)
             existed = os.path.exists(path)
             how = "save #%d to %s %s(%s)" % (
                 n_saves + 1, "an existing" if existed else "a new", fname,
